@@ -313,7 +313,9 @@ impl Gen {
                     self.phase = 2;
                     return self.saturate(r);
                 }
-                match self.present_key(r, "a") {
+                // mostly keys whose removal leaves a tombstone, so that growth_left stays 0
+                let k = if self.rng.chance(9, 10) { crate::gen_ext::ent_tomb_key(self, r) } else { None };
+                match k.or_else(|| self.present_key(r, "a")) {
                     Some(k) => format!("a remove {}", k),
                     None => {
                         self.phase = 2;
@@ -335,6 +337,43 @@ impl Gen {
                     1 => format!("a shrink_to {}", self.rng.below(d.items as u64 + 3)),
                     _ => format!("a shrink_to {}", d.items as u64 + self.rng.below(2 * cap as u64 + 2)),
                 }
+            }
+            2 if self.variant == "entry-sat" && !d.is_singleton && d.growth_left == 0 && self.rng.chance(4, 5) => {
+                // an absent key whose first free bucket is EMPTY (not a tombstone): the vacant-entry
+                // insertion probes, must reserve (in-place rehash when len+1 <= capacity/2) and probe again
+                let present = r.keys("a");
+                let w = hashbrown::verif::GROUP_WIDTH;
+                let n = d.bucket_mask + 1;
+                let mut pick = None;
+                for _ in 0..400 {
+                    let k = self.rng.below(self.universe);
+                    if present.contains(&k) {
+                        continue;
+                    }
+                    let h = crate::tape::plan_hash(k);
+                    let mut first = None;
+                    'walk: for pos in hashbrown::verif::probe_positions(h, d.bucket_mask, n / w + 2) {
+                        for j in 0..w {
+                            let c = d.ctrl[(pos + j) & d.bucket_mask];
+                            if c & 0x80 != 0 {
+                                first = Some(c);
+                                break 'walk;
+                            }
+                        }
+                    }
+                    if first == Some(0xFF) {
+                        pick = Some(k);
+                        break;
+                    }
+                }
+                let k = pick.unwrap_or_else(|| {
+                    self.fresh_key += 1;
+                    (self.fresh_key - 1) % self.universe
+                });
+                if self.rng.chance(1, 3) {
+                    self.phase = 3;
+                }
+                format!("a {}", self.insert(k))
             }
             2 => {
                 // insert fresh keys until the table has rehashed (growth_left > 0 again), then mix
